@@ -226,6 +226,32 @@ pub fn gen_desc_case_with(rng: &mut Rng, world: &World, cfg: &CaseCfg, names: &d
                     }
                 }
             }
+            // In a tr() descriptor a key may also be written as a full 33-byte key (either parity);
+            // the script still commits to its x-only form. One descriptor in four writes some of its
+            // keys that way (the harness AST keeps the x-only form: the meaning is the same).
+            struct FullKeys<'a> {
+                inner: &'a dyn Names,
+                world: &'a World,
+                mask: u64,
+            }
+            impl Names for FullKeys<'_> {
+                fn key(&self, k: &KeyRef) -> String {
+                    let plain = self.inner.key(k);
+                    let ki = &self.world.keys[k.id % self.world.keys.len()];
+                    if k.form == KeyForm::XOnly && plain == ki.xonly_hex && self.mask & (1 << (k.id % 64)) != 0 {
+                        ki.compressed_hex.clone()
+                    } else {
+                        plain
+                    }
+                }
+                fn sha256(&self, i: usize) -> String { self.inner.sha256(i) }
+                fn hash256(&self, i: usize) -> String { self.inner.hash256(i) }
+                fn ripemd160(&self, i: usize) -> String { self.inner.ripemd160(i) }
+                fn hash160(&self, i: usize) -> String { self.inner.hash160(i) }
+            }
+            let mask = if rng.chance(1, 4) { rng.next_u64() } else { 0 };
+            let fk = FullKeys { inner: names, world, mask };
+            let names: &dyn Names = &fk;
             let desc = if n_leaves == 0 {
                 format!("tr({})", names.key(&internal))
             } else {
